@@ -113,11 +113,21 @@ Fracs == {<<>>, <<5>>, <<2, 5>>, <<0, 0, 1>>}
 UnitSpellings == [d |-> {"d", "D"}, h |-> {"h", "H"}, m |-> {"m", "M"}, s |-> {"s", "S"}, ms |-> {"ms", "MS", "Ms"}]
 Units == <<"d", "h", "m", "s", "ms">>
 
-\* nanoseconds of one part
-PartNanos(w, f, u) ==
-  LET k == Len(f)
-      n == Horner(w \o f, 10)              \* the digits as one integer, scale 10^-k
-  IN  IF u = "ms" THEN Shift(n, 6 - k) ELSE Shift(MulSmall(n, UnitSeconds[u]), 9 - k)
+\* long fractions: 9 digits (1 ns), 10 digits (integral only for d / h / m), 15 / 16 / 20 digits with trailing zeros
+\* (the value is that of "0.5"), and 15 digits ending in 1 (below a nanosecond for every unit)
+LongFracs == {<<1, 2, 3, 4, 5, 6, 7, 8, 9>>, Rep(0, 9) \o <<5>>, <<5>> \o Rep(0, 14), <<5>> \o Rep(0, 15), <<5>> \o Rep(0, 19),
+              Rep(0, 14) \o <<1>>}
+
+\* a * 10^e for negative e: exact iff the low -e digits are zero (BigNat is little-endian)
+ExactDown(a, m) == a = <<>> \/ (Len(a) > m /\ \A i \in 1..m : a[i] = 0)
+ScaleExact(a, e) == e >= 0 \/ ExactDown(a, 0 - e)
+Scale(a, e) == IF e >= 0 THEN Shift(a, e) ELSE IF Len(a) > 0 - e THEN SubSeq(a, 1 - e, Len(a)) ELSE <<>>    \* floor for inexact
+
+\* nanoseconds of one part (exact when PartExact)
+PartRaw(w, f, u) == IF u = "ms" THEN Horner(w \o f, 10) ELSE MulSmall(Horner(w \o f, 10), UnitSeconds[u])
+PartExp(f, u) == IF u = "ms" THEN 6 - Len(f) ELSE 9 - Len(f)
+PartExact(w, f, u) == ScaleExact(PartRaw(w, f, u), PartExp(f, u))
+PartNanos(w, f, u) == Scale(PartRaw(w, f, u), PartExp(f, u))
 
 DurSingle == { [k |-> "dur", pfx |-> p, neg |-> ng, parts |-> <<<<w, f, u, us>>>>, sep |-> ""] :
                  p \in {"T", "TIME", "t", "time"}, ng \in BOOLEAN, w \in Wholes, f \in Fracs,
@@ -129,7 +139,9 @@ DurCompound == { [k |-> "dur", pfx |-> "T", neg |-> FALSE, parts |-> ps, sep |->
                             <<<<<<2>>, <<>>, "m", "lower">>, <<<<5>>, <<5>>, "s", "lower">>>>,
                             <<<<<<1>>, <<>>, "s", "upper">>, <<<<5, 0, 0>>, <<>>, "ms", "upper">>>> },
                    sp \in {"", "_"} }
-DurLits == DurSingle \cup DurCompound
+DurLong == { [k |-> "dur", pfx |-> "T", neg |-> FALSE, parts |-> <<<<w, f, u, "lower">>>>, sep |-> ""] :
+               w \in {<<0>>, <<1>>}, f \in LongFracs, u \in {"d", "h", "m", "s", "ms"} }
+DurLits == DurSingle \cup DurCompound \cup DurLong
 
 UnitText(u, us) == IF us = "lower" THEN u ELSE IF u = "ms" THEN "MS" ELSE CHOOSE x \in UnitSpellings[u] : x # u
 RECURSIVE PartsSpelling(_, _)
@@ -143,7 +155,12 @@ RECURSIVE SumNanos(_)
 SumNanos(ps) == IF ps = <<>> THEN <<>> ELSE Add(PartNanos(Head(ps)[1], Head(ps)[2], Head(ps)[3]), SumNanos(Tail(ps)))
 DurValue(l) == [neg |-> (l.neg /\ SumNanos(l.parts) # <<>>), nanos |-> Dec(SumNanos(l.parts))]
 \* representable in every reasonable implementation: below 2^62 seconds ~ 4.6 * 10^27 ns (28 digits)
-DurExpect(l) == IF Len(SumNanos(l.parts)) <= 27 THEN "accept" ELSE "either"
+\* a value that is not a whole number of nanoseconds cannot be represented: rejected, never truncated;
+\* a fraction of more than 15 digits may be refused whatever its value
+DurAllExact(l) == \A i \in 1..Len(l.parts) : PartExact(l.parts[i][1], l.parts[i][2], l.parts[i][3])
+DurExpect(l) == IF ~DurAllExact(l) THEN "reject"
+                ELSE IF \E i \in 1..Len(l.parts) : Len(l.parts[i][2]) > 15 THEN "either"
+                ELSE IF Len(SumNanos(l.parts)) <= 27 THEN "accept" ELSE "either"
 
 ---------------------------------------------------------------------------
 (* dates, times of day, date-and-time *)
@@ -162,13 +179,18 @@ DateExpect(l) == IF ValidDate(l.y, l.m, l.d) THEN "accept" ELSE "reject"
 TodLits == { [k |-> "tod", pfx |-> p, h |-> h, mi |-> mi, s |-> s, f |-> f, pad |-> pd] :
                p \in {"TOD", "TIME_OF_DAY", "tod"}, h \in {0, 1, 23, 24}, mi \in {0, 59, 60}, s \in {0, 59, 60, 61, 255, 256, 300},
                f \in {<<>>, <<5>>, <<2, 5>>, <<9, 9, 9>>}, pd \in BOOLEAN }
+TodLong == { [k |-> "tod", pfx |-> "TOD", h |-> 10, mi |-> 11, s |-> 12, f |-> f, pad |-> TRUE] :
+               f \in {<<1, 2, 3, 4, 5, 6, 7, 8, 9>>, Rep(0, 9) \o <<5>>, <<5>> \o Rep(0, 14), <<5>> \o Rep(0, 15)} }
 TodFields(l) == Num(l.h, IF l.pad THEN 2 ELSE 1) \o <<":">> \o Num(l.mi, IF l.pad THEN 2 ELSE 1) \o <<":">> \o Num(l.s, IF l.pad THEN 2 ELSE 1)
                 \o (IF l.f = <<>> THEN <<>> ELSE <<".">> \o Chars(l.f))
 TodSpelling(l) == <<l.pfx, "#">> \o TodFields(l)
 \* fraction as nanoseconds
-TodValue(l) == [h |-> l.h, mi |-> l.mi, s |-> l.s, nanos |-> Dec(Shift(Horner(l.f, 10), 9 - Len(l.f)))]
+TodValue(l) == [h |-> l.h, mi |-> l.mi, s |-> l.s, nanos |-> Dec(Scale(Horner(l.f, 10), 9 - Len(l.f)))]
 ValidTod(l) == l.h \in 0..23 /\ l.mi \in 0..59 /\ l.s \in 0..59
-TodExpect(l) == IF ValidTod(l) THEN "accept" ELSE IF l.h \in 0..23 /\ l.mi \in 0..59 /\ l.s = 60 THEN "either" ELSE "reject"
+FracExact(f) == ScaleExact(Horner(f, 10), 9 - Len(f))
+TodExpect(l) == IF ~FracExact(l.f) THEN "reject"
+                ELSE IF ValidTod(l) THEN (IF Len(l.f) > 15 THEN "either" ELSE "accept")
+                ELSE IF l.h \in 0..23 /\ l.mi \in 0..59 /\ l.s = 60 THEN "either" ELSE "reject"
 
 DtLits == { [k |-> "dt", pfx |-> p, y |-> y, m |-> m, d |-> d, h |-> h, mi |-> mi, s |-> s, f |-> f, pad |-> TRUE] :
               p \in {"DT", "DATE_AND_TIME"}, y \in {1970, 2024}, m \in {2, 13}, d \in {28, 29, 30}, h \in {0, 23, 24}, mi \in {59, 60},
@@ -211,7 +233,7 @@ AddrExpect(l) == IF \E i \in 1..Len(l.comps) : ~Less(Horner(l.comps[i], 10), Hor
 All == (IF "int" \in Kinds THEN {l \in IntLits : IntWellFormed(l)} ELSE {})
        \cup (IF "bits" \in Kinds THEN BitLits ELSE {}) \cup (IF "real" \in Kinds THEN RealLits ELSE {})
        \cup (IF "dur" \in Kinds THEN DurLits ELSE {}) \cup (IF "date" \in Kinds THEN DateLits ELSE {})
-       \cup (IF "tod" \in Kinds THEN TodLits ELSE {}) \cup (IF "dt" \in Kinds THEN DtLits ELSE {})
+       \cup (IF "tod" \in Kinds THEN TodLits \cup TodLong ELSE {}) \cup (IF "dt" \in Kinds THEN DtLits ELSE {})
        \cup (IF "str" \in Kinds THEN StrLits ELSE {}) \cup (IF "addr" \in Kinds THEN AddrLits ELSE {})
 
 Init == lit \in All
@@ -233,6 +255,10 @@ Labels(l) == {"lit:" \o l.k}
              \cup (IF l.k = "dur" /\ Len(l.parts) > 1 THEN {"dur:compound"} ELSE {})
              \cup (IF l.k = "dur" /\ Len(l.parts) = 1 THEN {"dur:unit:" \o l.parts[1][3]} ELSE {})
              \cup (IF l.k = "dur" /\ Len(l.parts) = 1 /\ l.parts[1][2] # <<>> THEN {"dur:fraction"} ELSE {})
+             \cup (IF l.k = "dur" /\ ~DurAllExact(l) THEN {"dur:subnano"} ELSE {})
+             \cup (IF l.k = "dur" /\ (\E i \in 1..Len(l.parts) : Len(l.parts[i][2]) > 9) THEN {"dur:longfraction"} ELSE {})
+             \cup (IF l.k = "tod" /\ ~FracExact(l.f) THEN {"tod:subnano"} ELSE {})
+             \cup (IF l.k = "tod" /\ Len(l.f) > 9 THEN {"tod:longfraction"} ELSE {})
              \cup (IF l.k = "str" /\ StrHasEscape(l) THEN {"str:escape"} ELSE {})
              \cup (IF l.k = "str" THEN {IF l.q = "'" THEN "str:single" ELSE "str:double"} ELSE {})
              \cup (IF l.k = "addr" /\ (\E i \in 1..Len(l.comps) : Len(l.comps[i]) > 1) THEN {"addr:multidigit"} ELSE {})
@@ -246,6 +272,11 @@ Labels(l) == {"lit:" \o l.k}
 ValueTwoWays == lit.k = "int" => IntTwoWays(lit)
 \* a date is valid iff it has a successor/predecessor structure: day <= days in month, and Feb 29 only in leap years
 LeapSanity == Leap(2024) /\ ~Leap(2023) /\ ~Leap(1900) /\ Leap(2000)
+TrailingZerosNeutral == \A u \in {"d", "h", "m", "s", "ms"} :
+                           /\ PartNanos(<<1>>, <<5>> \o Rep(0, 15), u) = PartNanos(<<1>>, <<5>>, u)
+                           /\ PartExact(<<1>>, <<5>> \o Rep(0, 15), u)
+SubNanoInexact == ~PartExact(<<0>>, Rep(0, 9) \o <<5>>, "s") /\ PartExact(<<0>>, Rep(0, 9) \o <<5>>, "h")
+                  /\ PartNanos(<<0>>, Rep(0, 9) \o <<5>>, "h") = Horner(<<1, 8, 0, 0>>, 10)
 DurAdditive == lit.k = "dur" => SumNanos(lit.parts) = SumNanos(<<Head(lit.parts)>>) \/ Len(lit.parts) > 1
 Replay == [R |-> "lit", kind |-> lit.k, text |-> Spelling(lit), value |-> Value(lit), expect |-> Expect(lit), labs |-> Labels(lit)]
 EmitReplay == Emit => PrintT(ToJson(Replay))
